@@ -479,9 +479,17 @@ class MkIndices(_TableBase):
                 ob('make.nothing_recorded_without_keys', now == before)
             else:
                 j = z3.Int('j')
-                tail = z3.SubSeq(now, z3.Length(before), z3.Length(ks))
-                ob('make.recorded_references_grow_by_one_per_returned_key',
-                   z3.And(z3.Length(now) == z3.Length(before) + z3.Length(ks), z3.SubSeq(now, 0, z3.Length(before)) == before))
+                am = st.ghost.get('c:last_alloc_map')
+                if am is not None:
+                    # the references are built by one comprehension over the returned keys: `now` is `before` followed
+                    # by its result (stated over that result sequence - no sub-sequence arithmetic for the solver)
+                    tail = am['result']
+                    ob('make.recorded_references_grow_by_one_per_returned_key',
+                       z3.And(now == z3.Concat(before, tail), z3.Length(tail) == z3.Length(ks)))
+                else:
+                    tail = z3.SubSeq(now, z3.Length(before), z3.Length(ks))
+                    ob('make.recorded_references_grow_by_one_per_returned_key',
+                       z3.And(z3.Length(now) == z3.Length(before) + z3.Length(ks), z3.SubSeq(now, 0, z3.Length(before)) == before))
                 ob('make.recorded_reference_names_the_index_and_the_key_in_order', z3.ForAll([j], z3.Implies(
                     z3.And(j >= 0, j < z3.Length(ks)), z3.And(
                         Val.is_ref(tail[j]),
@@ -531,3 +539,234 @@ class MkIndices(_TableBase):
 
     def finish(self, ex, st0, outcomes, b):
         ex.oblige(st0, 'both_outcomes_exist', z3.BoolVal({oc[0] for _, oc in outcomes} == {'exc', 'ret'}))
+
+
+# ---------------------------------------------------------------------------------------------------------------
+# the public single-object operations: thin wrappers whose protocol over the proved helpers is fixed here. Together with
+# C11.mk_indices / rm_indices / update_indices (which keep the indices and back references of exactly one object in
+# step) they give: objects' = objects + obj / - obj, indices follow, a rejected operation changes nothing.
+class _Wrapper(_TableBase):
+    fn = ''
+    helper = ''
+    cls_qual = LK
+    container_hints = {'self._objects': 'set', 'self._object_ids': 'dict'}
+
+    @property
+    def target(self):
+        return f'{self.cls_qual}.{self.fn}'
+
+    def setup(self, b):
+        t = self.build_table(b, with_entry=False)
+        st = b.st
+        self.members0 = z3.Select(st.get_arr('S'), self.objs.e)
+        self.is_member = z3.Select(self.members0, Val.ref(self.obj.e))
+        self.has_refs = z3.Select(z3.Select(st.get_arr('DK'), self.ids.e), self.idkey)
+        st.ghost['c:locks'] = ()
+        return t, [self.obj], {}
+
+    def callee_outcomes(self, ex, st, name, recv, args, node):
+        if name == self.helper:
+            st.ghost['c:helper_locked'] = st.ghost.get('c:helper_locked', ()) + (tuple(st.ghost.get('locks', ())),)
+            return [(st.fork(), Raise(ex.mk_exc('KeyError', f'{name} rejected'))), (st, NONE)]
+        return [(st, NONE)]
+
+    def hooks(self, ex):
+        H = super().hooks(ex)
+
+        def on_with_enter(ex_, st, key, cm, node):
+            st.ghost['locks'] = st.ghost.get('locks', ()) + (key,)
+
+        def on_with_exit(ex_, st, key, cm, node, sig):
+            st.ghost['locks'] = st.ghost.get('locks', ())[:-1]
+        H.on_with_enter = staticmethod(on_with_enter)
+        H.on_with_exit = staticmethod(on_with_exit)
+        return H
+
+    def helper_calls(self, st):
+        return [c for c in st.ghost['calls'] if c[0] == self.helper]
+
+    def members(self, st):
+        return z3.Select(st.get_arr('S'), self.objs.e)
+
+
+def _mk_add(fn, locked, cls_qual=LK, cid=None):
+    class Add(_Wrapper):
+        id = cid or f'C11.{fn}'
+        helper = '_add_object'
+        doc = (f'{cls_qual.split(":")[-1]}.{fn}(obj): an object that is already stored is left alone (no second insertion, '
+               'nothing changes, no exception); otherwise _add_object(obj) runs exactly once'
+               + (' inside the table lock' if locked else '') + ' and its rejection (KeyError of a unique index) '
+               'propagates with the table as _add_object left it (C11.add_object_core: unchanged)')
+
+        def post(self, ex, st0, st, outcome, b):
+            calls = self.helper_calls(st)
+            ex.oblige(st, 'stored_object_is_not_inserted_again', z3.Implies(self.is_member, z3.And(
+                z3.BoolVal(len(calls) == 0), self.members(st) == self.members0, z3.BoolVal(outcome[0] == 'ret'))))
+            ex.oblige(st, 'new_object_goes_through_add_object_core_once', z3.Implies(z3.Not(self.is_member), z3.BoolVal(
+                len(calls) == 1) if not calls else z3.And(z3.BoolVal(len(calls) == 1), calls[0][2][0] == Val.ref(self.obj.e))))
+            if locked and calls:
+                ex.oblige(st, 'inside_the_table_lock', z3.BoolVal(all(any(k.endswith('._lock') for k in lk)
+                                                                      for lk in st.ghost.get('c:helper_locked', ()))))
+            if outcome[0] == 'exc':
+                ex.oblige(st, 'only_the_rejection_of_the_core_escapes', z3.BoolVal('_add_object' in outcome[1].origin),
+                          info={'exc': repr(outcome[1])})
+    Add.fn = fn
+    Add.cls_qual = cls_qual
+    Add.__name__ = 'Add_' + fn + '_' + cls_qual.split('.')[-1]
+    return Add
+
+
+def _mk_remove(fn, locked):
+    class Remove(_Wrapper):
+        id = f'C11.{fn}'
+        helper = '_rm_indices'
+        doc = (f'{fn}(obj): an object without back references (not stored) changes nothing; otherwise its index entries '
+               'are removed by exactly one _rm_indices(obj) (C11.rm_indices)' + (' inside the table lock' if locked else '')
+               + ' and then the object itself leaves the object set; nothing else does')
+
+        def callee_outcomes(self, ex, st, name, recv, args, node):
+            if name == self.helper:
+                st.ghost['c:helper_locked'] = st.ghost.get('c:helper_locked', ()) + (tuple(st.ghost.get('locks', ())),)
+                return [(st, NONE)]       # C11.rm_indices: never raises when obj has an entry
+            return [(st, NONE)]
+
+        def post(self, ex, st0, st, outcome, b):
+            calls = self.helper_calls(st)
+            if outcome[0] == 'exc':
+                # set.remove of an object that has back references but is not in the object set: excluded by the table
+                # invariant (back references exist exactly for stored objects)
+                ex.oblige(st, 'raises_only_when_the_table_invariant_is_broken', z3.And(self.has_refs, z3.Not(self.is_member)),
+                          info={'exc': repr(outcome[1])})
+                return
+            ex.oblige(st, 'unknown_object_changes_nothing', z3.Implies(z3.Not(self.has_refs), z3.And(
+                z3.BoolVal(len(calls) == 0), self.members(st) == self.members0)))
+            x = z3.Const('x!rm', Val)
+            ex.oblige(st, 'stored_object_is_unindexed_once_and_removed', z3.Implies(self.has_refs, z3.And(
+                z3.BoolVal(len(calls) == 1), z3.Not(z3.Select(self.members(st), Val.ref(self.obj.e))),
+                z3.ForAll([x], z3.Implies(x != Val.ref(self.obj.e), z3.Select(self.members(st), x) == z3.Select(self.members0, x))))))
+            if locked and calls:
+                ex.oblige(st, 'inside_the_table_lock', z3.BoolVal(all(any(k.endswith('._lock') for k in lk)
+                                                                      for lk in st.ghost.get('c:helper_locked', ()))))
+    Remove.fn = fn
+    Remove.__name__ = 'Remove_' + fn
+    return Remove
+
+
+def _mk_update(fn, locked):
+    class Update(_Wrapper):
+        id = f'C11.{fn}'
+        helper = '_update_indices'
+        doc = (f'{fn}(obj): an object that is not stored is refused (ValueError, nothing changes); a stored one is '
+               're-indexed by exactly one _update_indices(obj) (C11.update_indices)' + (' inside the table lock' if locked else '')
+               + '; the object set is never changed')
+
+        def post(self, ex, st0, st, outcome, b):
+            calls = self.helper_calls(st)
+            ex.oblige(st, 'object_set_untouched', self.members(st) == self.members0)
+            ex.oblige(st, 'unknown_object_refused', z3.Implies(z3.Not(self.is_member), z3.BoolVal(
+                outcome[0] == 'exc' and outcome[1].cls == 'ValueError' and len(calls) == 0)))
+            ex.oblige(st, 'stored_object_reindexed_once', z3.Implies(self.is_member, z3.BoolVal(len(calls) == 1)))
+            if locked and calls:
+                ex.oblige(st, 'inside_the_table_lock', z3.BoolVal(all(any(k.endswith('._lock') for k in lk)
+                                                                      for lk in st.ghost.get('c:helper_locked', ()))))
+    Update.fn = fn
+    Update.__name__ = 'Update_' + fn
+    return Update
+
+
+@register
+class AddObjectCore(_Wrapper):
+    id = 'C11.add_object_core'
+    fn = '_add_object'
+    helper = '_mk_indices'
+    doc = ('_add_object(obj): the object enters the object set and is indexed by exactly one _mk_indices(obj) '
+           '(C11.mk_indices); when indexing rejects it (duplicate key of a unique index) the object is taken out of the '
+           'object set again - the set is exactly what it was - and the rejection propagates')
+
+    def post(self, ex, st0, st, outcome, b):
+        calls = self.helper_calls(st)
+        ex.oblige(st, 'indexed_exactly_once', z3.BoolVal(len(calls) == 1))
+        x = z3.Const('x!add', Val)
+        if outcome[0] == 'exc':
+            ex.oblige(st, 'only_the_rejection_escapes', z3.BoolVal('_mk_indices' in outcome[1].origin), info={'exc': repr(outcome[1])})
+            ex.oblige(st, 'rejected_insertion_leaves_the_object_set_as_it_was', z3.Implies(
+                z3.Not(self.is_member), self.members(st) == self.members0))
+            return
+        ex.oblige(st, 'object_set_gains_exactly_obj', z3.And(
+            z3.Select(self.members(st), Val.ref(self.obj.e)),
+            z3.ForAll([x], z3.Implies(x != Val.ref(self.obj.e), z3.Select(self.members(st), x) == z3.Select(self.members0, x)))))
+
+
+for _fn, _locked in (('add_object', True), ('add_object_no_lock', False)):
+    register(_mk_add(_fn, _locked))
+for _fn, _locked in (('remove_object', True), ('remove_object_no_lock', False)):
+    register(_mk_remove(_fn, _locked))
+for _fn, _locked in (('update_object', True), ('update_object_no_lock', False)):
+    register(_mk_update(_fn, _locked))
+
+
+# ---------------------------------------------------------------------------------------------------------------
+# the MDIB tables (mdibbase.py) subclass MultiKeyLookup. The contracts above speak about the base class; they carry over
+# because the subclasses only *delegate*: no override manipulates the object set, the back references or the indices
+# itself. That is a class-wide syntactic frame, checked exhaustively over every method of the four table classes.
+import ast as _ast   # noqa: E402
+from pyvc.api import ScanCheck   # noqa: E402
+
+_TABLE_CLASSES = ('_MultikeyWithVersionLookup', 'DescriptorsLookup', 'StatesLookup', 'MultiStatesLookup')
+_INTERNALS = ('_objects', '_idx_defs', '_add_object', '_mk_indices', '_rm_indices', '_update_indices')
+_PUBLIC_OPS = ('add_object', 'add_object_no_lock', 'add_objects', 'add_objects_no_lock', 'remove_object', 'remove_object_no_lock',
+               'remove_objects', 'remove_objects_no_lock', 'update_object', 'update_object_no_lock', 'update_objects',
+               'update_objects_no_lock', 'clear')
+
+
+@register
+class TableSubclassesOnlyDelegate(ScanCheck):
+    id = 'C11.mdib_tables_only_delegate'
+    prop = 'C11'
+    doc = ('every method of the MDIB table classes (_MultikeyWithVersionLookup, DescriptorsLookup, StatesLookup, '
+           'MultiStatesLookup): an override of a table operation reaches the object set / back references / indices '
+           'only through the base-class operation of the same family (super().<op>, self.<op>_no_lock or apply_map over '
+           'it), optionally guarded; it never touches _objects, _idx_defs or the index helpers itself and reads '
+           '_object_ids only to test whether the object is stored. So the base-class contracts hold for the tables')
+
+    def scan(self, repo):
+        mod = repo.module('sdc11073.mdib.mdibbase')
+        out = []
+        seen = 0
+        for cname in _TABLE_CLASSES:
+            cdef = mod.classes.get(cname)
+            if cdef is None:
+                out.append((f'class.{cname}.exists', False, {}))
+                continue
+            for fn in [n for n in cdef.body if isinstance(n, (_ast.FunctionDef, _ast.AsyncFunctionDef))]:
+                seen += 1
+                bad = []
+                for n in _ast.walk(fn):
+                    if isinstance(n, _ast.Attribute) and n.attr in _INTERNALS:
+                        bad.append(f'line {n.lineno}: uses {n.attr}')
+                    if isinstance(n, _ast.Attribute) and n.attr == '_object_ids':
+                        # allowed only as self._object_ids.get(id(obj))
+                        ok = False
+                        for p in _ast.walk(fn):
+                            if isinstance(p, _ast.Call) and isinstance(p.func, _ast.Attribute) and p.func.value is n \
+                                    and p.func.attr == 'get':
+                                ok = True
+                        if not ok:
+                            bad.append(f'line {n.lineno}: uses _object_ids other than .get()')
+                if fn.name in _PUBLIC_OPS:
+                    family = fn.name.split('_')[0]          # add / remove / update / clear
+                    delegates = False
+                    for n in _ast.walk(fn):
+                        if isinstance(n, _ast.Call):
+                            callee = _ast.unparse(n.func)
+                            args = ' '.join(_ast.unparse(a) for a in n.args)
+                            if (callee.startswith('super().') or callee.startswith('self.')) and callee.split('.')[-1].startswith(family) \
+                                    and callee.split('.')[-1] in _PUBLIC_OPS:
+                                delegates = True
+                            if callee == 'apply_map' and f'self.{family}' in args:
+                                delegates = True
+                    if not delegates:
+                        bad.append('does not delegate to a base-class operation of its family')
+                out.append((f'method.{cname}.{fn.name}', not bad, {'class': cname, 'method': fn.name, 'findings': '; '.join(bad)}))
+        out.append(('methods_scanned', seen >= 15, {'methods': seen}))
+        return out
